@@ -156,9 +156,12 @@ class CellSim(object):
         return res
 
     def op_app(self, alloc_i, aff_i, demand, prio, lease, retention, group,
-               traits, once):
+               traits, once, limits=None):
         alloc, adecl = self.allocs[alloc_i % len(self.allocs)]
         aff = self.affs[aff_i % len(self.affs)]
+        if limits is not None:
+            # C02 probes only: limits of its own under a shared affinity name
+            aff = dict(aff, limits=limits)
         self.seq += 1
         name = 'pr%d.%s#%010d' % (alloc_i % len(self.allocs), aff['name'],
                                    self.seq)
